@@ -18,11 +18,13 @@ import (
 	"math/rand"
 	"os"
 	"path/filepath"
+	"reflect"
 	"sort"
 	"strconv"
 	"strings"
 	"testing"
 	"time"
+	"unsafe"
 
 	ethcommon "github.com/ethereum/go-ethereum/common"
 	"github.com/ethereum/go-ethereum/crypto"
@@ -91,6 +93,8 @@ func pcanon(v *vaa.VAA) string {
 }
 
 type pworld struct {
+	dbdir    string
+	downTick int // soak: the tick (index) during which the local store is unavailable; -1 = never
 	t      *testing.T
 	r      *rand.Rand
 	w      *bufio.Writer
@@ -178,7 +182,7 @@ func (w *pworld) reset(id string, our pkey) {
 		db:                       w.db,
 		attestationEvents:        reporter.EventListener(zap.NewNop()),
 		logger:                   zap.NewNop(),
-		state:                    &aggregationState{vaaMap{}},
+		state:                    newAggState(),
 		ourAddr:                  crypto.PubkeyToAddress(signer.PublicKey()),
 		governanceChainId:        pgovChain,
 		governanceEmitterAddress: pgovEmitter,
@@ -192,6 +196,20 @@ func (w *pworld) reset(id string, our pkey) {
 		w.startLive(signer)
 	}
 	fmt.Fprintf(w.w, "reset %s our=%s govchain=%d govemitter=%s\n", id, hex.EncodeToString(our.addr.Bytes()), pgovChain, hex.EncodeToString(pgovEmitter[:]))
+}
+
+// newAggState builds an empty aggregation state; the map field is found by its TYPE, so that further fields (counters, limits)
+// added to the struct do not break the harness.
+func newAggState() *aggregationState {
+	st := &aggregationState{}
+	v := reflect.ValueOf(st).Elem()
+	for i := 0; i < v.NumField(); i++ {
+		if f := v.Field(i); f.Type() == reflect.TypeOf(vaaMap{}) {
+			*(*vaaMap)(unsafe.Pointer(f.UnsafeAddr())) = vaaMap{}
+			return st
+		}
+	}
+	panic("verif: aggregationState holds no vaaMap field")
 }
 
 // ---------------------------------------------------------------- live mode (the real Run loop)
@@ -744,7 +762,16 @@ func (w *pworld) observation(o *gossipv1.SignedObservation) bool {
 
 func (w *pworld) inbound(b []byte) bool {
 	fields := "bytes=" + phex(b)
-	if v, err := vaa.Unmarshal(b); err == nil {
+	// the oracle is the decoder; if it panics on these bytes the handler under test is still given them (and its panic recorded)
+	v, err := func() (v *vaa.VAA, err error) {
+		defer func() {
+			if e := recover(); e != nil {
+				v, err = nil, fmt.Errorf("decoder panic: %v", e)
+			}
+		}()
+		return vaa.Unmarshal(b)
+	}()
+	if err == nil {
 		w.track(v)
 		d := v.SigningMsg().Bytes()
 		var rp []string
@@ -810,6 +837,39 @@ func (w *pworld) cleanup(room int) bool {
 	}
 	if ok && reqs != "" {
 		// the request outputs are appended as their own line so that `emit`'s format stays uniform
+		fmt.Fprintf(w.w, "reqs %s %s\n", w.caseID, reqs)
+	} else if ok {
+		fmt.Fprintf(w.w, "reqs %s -\n", w.caseID)
+	}
+	w.advance(500 * time.Millisecond)
+	return ok
+}
+
+// cleanupDown: a cleanup tick during which the local store answers every lookup with an error that is not "not found" (its handle
+// is closed for the duration of the tick, as during a shutdown / reopen). Only used where nothing pending has a stored VAA, so that
+// "the lookup failed" and "nothing is stored" call for the same behaviour: the entry is kept and retried.
+func (w *pworld) cleanupDown(room int) bool {
+	w.advance(500 * time.Millisecond)
+	for len(w.reqC) > 0 {
+		<-w.reqC
+	}
+	for i := 0; i < preqCap-room; i++ {
+		w.reqC <- nil
+	}
+	var reqs string
+	ok := w.emit("clean", fmt.Sprintf("room=%d storedown=1", room), func() {
+		w.db.Close()
+		defer func() {
+			nd, err := db.Open(w.dbdir)
+			if err != nil {
+				panic("verif: store did not reopen: " + err.Error())
+			}
+			w.db, w.p.db = nd, nd
+		}()
+		w.p.handleCleanup(w.ctx)
+		reqs = w.drainReq()
+	}, false)
+	if ok && reqs != "" {
 		fmt.Fprintf(w.w, "reqs %s %s\n", w.caseID, reqs)
 	} else if ok {
 		fmt.Fprintf(w.w, "reqs %s -\n", w.caseID)
@@ -1374,7 +1434,25 @@ func (w *pworld) rotationFamily(id string) {
 	}
 	base := w.mkVAA(k, 0)
 	step(w.setUpdate(gA))
-	switch r.Intn(6) {
+	switch r.Intn(7) {
+	case 6: // published and stored under A; the entry ages out (an hour, or a restart: only the store remembers); rotation; the
+		// message is observed again with its own block time (inside the settlement window) and the members of B sign
+		step(w.message(k))
+		step(ok && w.observation(w.obsFor(our, d)))
+		obsAll(setA, nA)
+		if ok {
+			w.advance(31 * time.Second)
+			step(w.cleanup(preqCap))
+		}
+		if ok {
+			w.advance(3601 * time.Second)
+			step(w.cleanup(preqCap))
+		}
+		step(ok && w.setUpdate(gB))
+		step(ok && w.message(k))
+		step(ok && w.observation(w.obsFor(our, d)))
+		obsAll(setB, nB)
+		obsAll(setA, nA)
 	case 0: // parked under A, rotation, local observation under B, then B members
 		obsAll(setA, 1+r.Intn(nA))
 		step(ok && w.setUpdate(gB))
@@ -1435,7 +1513,8 @@ func (w *pworld) rotationFamily(id string) {
 // soak (C14): a pending chain message and a pending injected VAA that never reach quorum, ticked every ~5 minutes.
 // quick: 14 ticks (past the 10-retry mark); thorough: the whole 14400-retry budget, with the message re-delivered after
 // every retry as a watcher honouring the re-observation request would do.
-func (w *pworld) soak(id string, ticks int, redeliver bool) {
+// gaps: the time between ticks cycles through this list ("including long stalls between ticks"); nil = five minutes
+func (w *pworld) soak(id string, ticks int, redeliver bool, gaps []time.Duration) {
 	r := w.r
 	set := w.randKeys(4)
 	w.reset(id, set[0])
@@ -1474,8 +1553,16 @@ func (w *pworld) soak(id string, ticks int, redeliver bool) {
 		return
 	}
 	for i := 0; i < ticks; i++ {
-		w.advance(300 * time.Second)
-		if !w.cleanup(preqCap) {
+		gap := 300 * time.Second
+		if len(gaps) > 0 {
+			gap = gaps[i%len(gaps)]
+		}
+		w.advance(gap)
+		if i == w.downTick && !w.live {
+			if !w.cleanupDown(preqCap) {
+				return
+			}
+		} else if !w.cleanup(preqCap) {
 			return
 		}
 		if redeliver {
@@ -1631,6 +1718,165 @@ func (w *pworld) fullQueueFamily(id string) {
 	w.observation(w.obsFor(set[2], d))
 }
 
+// truncation family (C13): gossiped SignedVAAWithQuorum messages are unauthenticated bytes. Every prefix length around the end of
+// the fixed part of the body (and around the end of the signature block) of a well-formed VAA with 0..3 signatures, plus the
+// same with a wrong version byte and with a signature count that promises more than is there.
+func (w *pworld) truncFamily(id string) {
+	r := w.r
+	set := w.randKeys(4)
+	w.reset(id, set[0])
+	gs := &common.GuardianSet{Index: 3}
+	for _, x := range set {
+		gs.Keys = append(gs.Keys, x.addr)
+	}
+	if !w.setUpdate(gs) {
+		return
+	}
+	var emitter vaa.Address
+	r.Read(emitter[:])
+	k := w.randMsg(emitter, uint64(r.Intn(100)))
+	k.Payload = make([]byte, 1+r.Intn(4))
+	r.Read(k.Payload)
+	base := w.mkVAA(k, gs.Index)
+	for nsig := 0; nsig <= 3; nsig++ {
+		full := w.signedVAA(base, gs, set, []int{0, 1, 2, 3}[:nsig])
+		hdr := 6 + 66*nsig
+		lens := map[int]bool{}
+		for l := hdr - 2; l <= hdr+2; l++ {
+			lens[l] = true
+		}
+		for l := hdr + 40; l <= len(full); l++ {
+			lens[l] = true
+		}
+		var ls []int
+		for l := range lens {
+			if l >= 0 && l <= len(full) {
+				ls = append(ls, l)
+			}
+		}
+		sort.Ints(ls)
+		for _, l := range ls {
+			b := append([]byte{}, full[:l]...)
+			switch r.Intn(6) {
+			case 0:
+				if len(b) > 0 {
+					b[0] = 2
+				}
+			case 1:
+				if len(b) > 5 {
+					b[5]++ // one more signature promised than present
+				}
+			}
+			if !w.inbound(b) {
+				return
+			}
+		}
+	}
+}
+
+// SCALE: flood family (C14). The node has signed a message that lacks quorum; one guardian then delivers `n` valid observations
+// for `n` distinct digests this node never observed (a guardian catching up after an outage, or a misbehaving one) - all inside
+// the five minutes such entries live. The node's own entry is by then the oldest in the map: it must still be retried when due and
+// must not be discarded. The flood is ONE line (`flood`); the driver judges what follows by the Spec clauses alone.
+func (w *pworld) floodFamily(id string, n int) {
+	r := w.r
+	set := w.randKeys(4)
+	w.reset(id, set[0])
+	gs := &common.GuardianSet{Index: 1}
+	for _, x := range set {
+		gs.Keys = append(gs.Keys, x.addr)
+	}
+	if !w.setUpdate(gs) {
+		return
+	}
+	var emitter vaa.Address
+	r.Read(emitter[:])
+	k := w.randMsg(emitter, 1)
+	k.Payload = []byte{7, 7}
+	if !w.message(k) {
+		return
+	}
+	d := w.mkVAA(k, gs.Index).SigningMsg().Bytes()
+	if !w.observation(w.obsFor(set[0], d)) {
+		return
+	}
+	w.advance(31 * time.Second)
+	if !w.cleanup(preqCap) {
+		return
+	}
+	sfx := make([]byte, 28)
+	r.Read(sfx)
+	ok := w.emit("flood", fmt.Sprintf("addr=%s n=%d sfx=%s", phex(set[1].addr.Bytes()), n, phex(sfx)), func() {
+		for i := 0; i < n; i++ {
+			h := append([]byte{byte(i), byte(i >> 8), byte(i >> 16), byte(i >> 24)}, sfx...)
+			w.p.handleObservation(w.ctx, w.obsFor(set[1], h))
+		}
+	}, false)
+	if !ok {
+		return
+	}
+	// 299 s after the flood began: the flood's entries are still young, the node's own entry is due for its first retry
+	w.advance(299 * time.Second)
+	if !w.cleanup(preqCap) {
+		return
+	}
+	// the flood ages out; the own entry is retried again
+	w.advance(300 * time.Second)
+	if !w.cleanup(preqCap) {
+		return
+	}
+	w.advance(300 * time.Second)
+	w.cleanup(preqCap)
+}
+
+// SCALE: remote-first family (C02). `n` messages, each delivered in the order: another guardian's observation first, then the local
+// observation and its loopback (quorum of a two-guardian set: published), then the entry ages out. After that a message delivered in
+// the same order must still be published as soon as the quorum has been delivered - however many went before.
+func (w *pworld) remoteFirstFamily(id string, n int) {
+	r := w.r
+	set := w.randKeys(2)
+	w.reset(id, set[0])
+	gs := &common.GuardianSet{Index: 4}
+	for _, x := range set {
+		gs.Keys = append(gs.Keys, x.addr)
+	}
+	if !w.setUpdate(gs) {
+		return
+	}
+	var emitter vaa.Address
+	r.Read(emitter[:])
+	for i := 0; i < n; i++ {
+		k := w.randMsg(emitter, uint64(i))
+		k.Payload = []byte{byte(i), byte(i >> 8), 1}
+		k.Timestamp = time.Unix(1700000000+int64(i), 0)
+		d := w.mkVAA(k, gs.Index).SigningMsg().Bytes()
+		if !w.observation(w.obsFor(set[1], d)) || !w.message(k) || !w.observation(w.obsFor(set[0], d)) {
+			return
+		}
+		// every 16 messages the completed entries age out (an hour and more of uptime): the map is empty again
+		if i%16 == 15 {
+			w.advance(31 * time.Second)
+			if !w.cleanup(preqCap) {
+				return
+			}
+			w.advance(3601 * time.Second)
+			if !w.cleanup(preqCap) {
+				return
+			}
+			// a new case id for the SAME processor: with an empty aggregation map the model may start afresh (its store forgets the
+			// VAAs of the messages so far, whose ids never come up again), which keeps every line's state and store dump small
+			if len(w.p.state.vaaSignatures) == 0 {
+				w.caseID = fmt.Sprintf("%s.%d", id, i/16+1)
+				w.ids = map[string]vaa.VAAID{}
+				fmt.Fprintf(w.w, "reset %s our=%s govchain=%d govemitter=%s\n", w.caseID, hex.EncodeToString(w.our.addr.Bytes()), pgovChain, hex.EncodeToString(pgovEmitter[:]))
+				if !w.setUpdate(gs) {
+					return
+				}
+			}
+		}
+	}
+}
+
 // look-alike family (C14 / C12): the store holds the quorum VAA of sequence 120 (and 10, 1000) of an emitter while its sequences
 // 12 (1, 100) are still pending without quorum: a pending entry is dropped as "late" only if a quorum VAA for ITS message is stored -
 // not one whose key merely starts the same.
@@ -1767,10 +2013,11 @@ func TestVerifProcessor(t *testing.T) {
 		t.Fatal(err)
 	}
 	defer os.RemoveAll(dbdir)
-	defer d.Close()
 	sctx, stop := psupCtx()
 	defer stop()
-	w := &pworld{t: t, r: rand.New(rand.NewSource(seed)), w: bufio.NewWriterSize(f, 1<<20), db: d, dist: map[string]int{}, ctx: sctx}
+	w := &pworld{t: t, r: rand.New(rand.NewSource(seed)), w: bufio.NewWriterSize(f, 1<<20), db: d, dist: map[string]int{}, ctx: sctx,
+		dbdir: dbdir, downTick: -1}
+	defer func() { w.db.Close() }()
 	defer w.w.Flush()
 	for i := 0; i < 40; i++ {
 		w.keys = append(w.keys, pnewKey())
@@ -1816,11 +2063,28 @@ func TestVerifProcessor(t *testing.T) {
 	for i := 0; i < 4; i++ {
 		w.lookAlikeFamily(fmt.Sprintf("l%d", i))
 	}
-	w.soak("k0", 14, false)
-	w.soak("k1", 14, true)
+	w.truncFamily("t0")
+	// SCALE families, run for the properties whose statements they bear on (checks/proccommon.py sets the variable)
+	switch os.Getenv("VERIF_PROC_SCALE") {
+	case "C14":
+		w.floodFamily("x0", 10050)
+	case "C02":
+		w.remoteFirstFamily("y0", 2100)
+	}
+	w.soak("k0", 14, false, nil)
+	w.soak("k1", 14, true, nil)
+	// the local store unavailable during one tick (first retry tick / a later one)
+	w.downTick = 0
+	w.soak("k6", 4, false, nil)
+	w.downTick = 2
+	w.soak("k7", 5, true, nil)
+	w.downTick = -1
+	// stalls of an hour and more between ticks, and a mix of short and long ones
+	w.soak("k4", 13, false, []time.Duration{61 * time.Minute})
+	w.soak("k5", 16, true, []time.Duration{7 * time.Minute, 3 * time.Hour, 299 * time.Second, 26 * time.Hour, 301 * time.Second})
 	if thorough {
-		w.soak("k2", 14420, false)
-		w.soak("k3", 14420, true)
+		w.soak("k2", 14420, false, nil)
+		w.soak("k3", 14420, true, nil)
 	}
 	if thorough {
 		w.subsetFamily("q", 6)
